@@ -93,6 +93,9 @@ def make_linear_interpolator(field, grid=None, fill_value=None):
         grid = field.grid
 
     if grid.is_unstructured:
+        if fill_value is None:
+            fill_value = np.nan
+
         return make_linear_interpolator_unstructured(field, grid, fill_value)
     else:
         return make_linear_interpolator_separated(field, grid, fill_value)
